@@ -107,6 +107,54 @@ pub fn judge(o: &[u8], f: Fmt, x: Fmt, scheds: &[Sched], acc: &mut Acc) {
     }
 }
 
+/// At the command line: xt's own output as a LATER operand that names no format (no telling extension, or
+/// '-'), behind a first operand whose extension names another format. Nothing of the first operand may
+/// reach the recognition of the second: the output must be that of the two operands translated separately.
+pub fn cli_later_operand(seed: u64, idx: usize, acc: &mut Acc) {
+    use crate::procmon::{self, Run, Scratch, Status, StdinKind, StdoutKind};
+    let mut rng = Rng::derive(seed, 0xc10c, idx as u64);
+    let mut cl = Classes::default();
+    let first_fmt = ALL[idx % 4];
+    let own_fmt = ALL[(idx / 4) % 4];
+    let to = STREAMING[(idx / 16) % 3];
+    let via_stdin = (idx / 48) % 2 == 1;
+    let mut feats = Feats::default();
+    let doc = gen_doc_for_detection(&mut rng, &mut cl);
+    let doc = if own_fmt == Fmt::Toml || first_fmt == Fmt::Toml { match crate::gen::tomlify(&doc) { Some(t) => t, None => return } } else { doc };
+    let mut j = spell(Fmt::Json, &doc, &mut rng, &mut feats, true);
+    j.push(b'\n');
+    let own = run_slice(&j, Some(Fmt::Json), own_fmt);
+    let first = run_slice(b"{\"first\": [1, \"operand\"]}\n", Some(Fmt::Json), first_fmt);
+    if !own.verdict.is_ok() || !first.verdict.is_ok() || detect_slice(&own.out) != Ok(Some(own_fmt)) {
+        return;
+    }
+    let sc = Scratch::new();
+    let first_name = format!("first.{}", match first_fmt { Fmt::Yaml => *rng.pick(&["yaml", "yml"]), f => f.name() });
+    sc.file(&first_name, &first.out);
+    sc.file("own", &own.out);
+    let bin = procmon::release_bin();
+    let run = |argv: Vec<String>, stdin: &[u8]| procmon::run(Run { bin: &bin, argv, cwd: sc.path(), stdin: StdinKind::Bytes(stdin.to_vec()), stdout: StdoutKind::Pipe, wall_secs: 60, cpu_secs: 20 });
+    let second = if via_stdin { "-" } else { "own" };
+    let a = run(vec!["-t".into(), to.name().into(), first_name.clone()], b"");
+    let b = run(vec!["-t".into(), to.name().into(), second.into()], &own.out);
+    if a.status != Status::Exit(0) || b.status != Status::Exit(0) {
+        acc.count("cli_later_operand_skipped");
+        return;
+    }
+    let both = run(vec!["-t".into(), to.name().into(), first_name.clone(), second.into()], &own.out);
+    acc.evals += 1;
+    acc.count("cli_own_output_as_a_later_operand");
+    if matches!(both.status, Status::Timeout | Status::SpawnError(_)) {
+        acc.inconclusive += 1;
+        return;
+    }
+    let mut expected = a.stdout.clone();
+    expected.extend_from_slice(&b.stdout);
+    if both.status != Status::Exit(0) || both.stdout != expected {
+        acc.violation(Violation { sig: format!("command line: own {} output as a later operand behind a .{} file is recognised differently", own_fmt.name(), first_fmt.name()), case: json!({"part": "cli_later_operand", "seed": seed, "index": idx}), observed: format!("xt -t {} {} {}: status {}, stdout [{}], stderr [{}]", to.name(), first_name, second, both.status.show(), preview(&both.stdout, 160), preview(&both.stderr, 160)), expected: format!("exit 0 and the output of the two operands translated separately [{}]", preview(&expected, 160)) });
+    }
+}
+
 pub fn run(ctx: &Ctx) -> i32 {
     let n = ctx.size(12000, 1500000);
     let seed = ctx.seed;
@@ -250,15 +298,30 @@ pub fn run(ctx: &Ctx) -> i32 {
             }
         }
     });
-    let rule = format!("{} document sets (1-5 collection-rooted documents; maps get a first key from a pool of {} detection-hostile keys: empty, numeric-looking, quoted, YAML/TOML indicators, non-ASCII incl. U+0080-U+07FF) x 4 output formats (TOML: first document, TOML-representable), every 600th set a single root map/array of 65 535..70 000 entries, every 100th a map holding 33-100 KB of multi-byte characters behind 0..7 ASCII bytes (read whole and 16 384 / 8192 / 16 383 / 16 385 / 65 536 bytes at a time); every output is offered to the detect hook as a slice and under 3 read schedules, and xt(None->X) is compared with xt(F->X) in slice and reader mode; the outputs of one set are also fed one after the other through ONE translator without a source format; distinct non-trivial = distinct document sets", n, FIRST_KEYS.len());
+    let mut acc = acc;
+    let n_cli = ctx.size(96, 960);
+    let cli = crate::par::run(n_cli, 2, |i, acc| cli_later_operand(seed, i, acc));
+    acc.merge(cli);
+    let rule = format!("{} document sets (1-5 collection-rooted documents; maps get a first key from a pool of {} detection-hostile keys: empty, numeric-looking, quoted, YAML/TOML indicators, non-ASCII incl. U+0080-U+07FF) x 4 output formats (TOML: first document, TOML-representable), every 600th set a single root map/array of 65 535..70 000 entries, every 100th a map holding 33-100 KB of multi-byte characters behind 0..7 ASCII bytes (read whole and 16 384 / 8192 / 16 383 / 16 385 / 65 536 bytes at a time); every output is offered to the detect hook as a slice and under 3 read schedules, and xt(None->X) is compared with xt(F->X) in slice and reader mode; the outputs of one set are also fed one after the other through ONE translator without a source format; at the command line, own output as a later operand without a telling name (a file, or '-') behind a first operand whose extension names each format; distinct non-trivial = distinct document sets", n, FIRST_KEYS.len());
     ev::finish(
-        Finish { ctx, level: "exploration", rule, assumptions: vec!["TOML exceptions decided by the harness's hand-written JSON reader and libyaml-event reader, not by xt".into(), "an empty table is written to TOML as zero bytes; that empty text must still be recognised as TOML".into()], extra: serde_json::Map::new(), exhaustive: false, min_distinct: 1000, must_reach: vec![("pipeline_equivalence_checked".into(), 1000), ("huge_root_collections".into(), 5), ("long_multibyte_text_documents".into(), 20), ("detected_toml_as_toml".into(), 100), ("detected_yaml_as_yaml".into(), 100), ("detected_msgpack_as_msgpack".into(), 100), ("detected_json_as_json".into(), 100), ("own_outputs_through_one_translator".into(), 1000), ("json_output_after_toml_or_yaml_on_one_translator".into(), 1000)] },
+        Finish { ctx, level: "exploration", rule, assumptions: vec!["TOML exceptions decided by the harness's hand-written JSON reader and libyaml-event reader, not by xt".into(), "an empty table is written to TOML as zero bytes; that empty text must still be recognised as TOML".into()], extra: serde_json::Map::new(), exhaustive: false, min_distinct: 1000, must_reach: vec![("pipeline_equivalence_checked".into(), 1000), ("huge_root_collections".into(), 5), ("cli_own_output_as_a_later_operand".into(), 40), ("long_multibyte_text_documents".into(), 20), ("detected_toml_as_toml".into(), 100), ("detected_yaml_as_yaml".into(), 100), ("detected_msgpack_as_msgpack".into(), 100), ("detected_json_as_json".into(), 100), ("own_outputs_through_one_translator".into(), 1000), ("json_output_after_toml_or_yaml_on_one_translator".into(), 1000)] },
         acc,
     )
 }
 
 pub fn replay(v: &Value) -> i32 {
     let c = &v["case"];
+    if c["part"].as_str() == Some("cli_later_operand") {
+        let mut acc = Acc::default();
+        cli_later_operand(c["seed"].as_u64().unwrap_or(0), c["index"].as_u64().unwrap_or(0) as usize, &mut acc);
+        return if acc.vio_count > 0 {
+            println!("VIOLATION property=C10 replay=<this file> (reproduced): {}", acc.violations[0].observed);
+            1
+        } else {
+            println!("not reproduced");
+            0
+        };
+    }
     if c["part"].as_str() == Some("one_translator") {
         use crate::run::{run_history, Call};
         let Some(x) = c["then_to"].as_str().and_then(Fmt::parse) else { return 2 };
